@@ -5,7 +5,8 @@
 From Coq Require Export List.
 Export ListNotations.
 
-Inductive ty := TNull | TBool | TInt | TFloat | TStr | TArr | TObj | TCls.
+Inductive ty := TNull | TBool | TInt | TFloat | TStr | TArr | TObj | TCls
+  | TNil.   (* a nil value (the result of a call that returns nothing): no type, implements nothing *)
 Inductive iface := AsInt | AsFloat | AsBool | AsString.
 
 (* BEGIN TABLE *)
